@@ -17,10 +17,22 @@ static inline struct vs_nstr vs_nstr_ctor_empty(void) { struct vs_nstr r; r.size
 /* every find() result is a fact "the byte at index r is ch"; later results must be consistent with the facts recorded so
    far (an index cannot hold two different characters).  Up to four facts are kept. */
 extern size_t g_fact_idx[4]; extern char g_fact_ch[4]; extern unsigned g_fact_n;
+/* negative facts: "no byte ch at or after index from" (a find() that returned npos); up to two are kept */
+extern size_t g_nofact_from[2]; extern char g_nofact_ch[2]; extern unsigned g_nofact_n;
+#define VS_NOFACT_OK(i, c) (!(g_nofact_n > 0 && (i) >= g_nofact_from[0] && (c) == g_nofact_ch[0]) && !(g_nofact_n > 1 && (i) >= g_nofact_from[1] && (c) == g_nofact_ch[1]))
 static inline size_t vs_nstr_find(const struct vs_nstr *s, char ch, size_t from)
 {
     size_t r;
     __CPROVER_assume(r == VS_NPOS || (from <= r && r < s->size));
+    if (r != VS_NPOS) __CPROVER_assume(VS_NOFACT_OK(r, ch));
+    if (r == VS_NPOS) {
+        /* consistent with the positive facts: none of them says ch sits at or after from */
+        if (g_fact_n > 0) __CPROVER_assume(!(g_fact_idx[0] >= from && g_fact_ch[0] == ch));
+        if (g_fact_n > 1) __CPROVER_assume(!(g_fact_idx[1] >= from && g_fact_ch[1] == ch));
+        if (g_fact_n > 2) __CPROVER_assume(!(g_fact_idx[2] >= from && g_fact_ch[2] == ch));
+        if (g_fact_n > 3) __CPROVER_assume(!(g_fact_idx[3] >= from && g_fact_ch[3] == ch));
+        if (g_nofact_n < 2) { g_nofact_from[g_nofact_n] = from; g_nofact_ch[g_nofact_n] = ch; g_nofact_n++; }
+    }
     if (r != VS_NPOS) {
         if (g_fact_n > 0) __CPROVER_assume(!(g_fact_idx[0] == r && g_fact_ch[0] != ch));
         if (g_fact_n > 1) __CPROVER_assume(!(g_fact_idx[1] == r && g_fact_ch[1] != ch));
@@ -29,6 +41,20 @@ static inline size_t vs_nstr_find(const struct vs_nstr *s, char ch, size_t from)
         if (g_fact_n < 4) { g_fact_idx[g_fact_n] = r; g_fact_ch[g_fact_n] = ch; g_fact_n++; }
     }
     return r;
+}
+/* s[i] (i <= size; the terminator at size): some byte, consistent with what the find() calls established */
+static inline char vs_nstr_index(const struct vs_nstr *s, size_t i)
+{
+    __CPROVER_assert(i <= s->size, "std::string::operator[] index within [0, size]");
+    char c;
+    if (i == s->size) return 0;
+    __CPROVER_assume(VS_NOFACT_OK(i, c));
+    if (g_fact_n > 0) __CPROVER_assume(!(g_fact_idx[0] == i && g_fact_ch[0] != c));
+    if (g_fact_n > 1) __CPROVER_assume(!(g_fact_idx[1] == i && g_fact_ch[1] != c));
+    if (g_fact_n > 2) __CPROVER_assume(!(g_fact_idx[2] == i && g_fact_ch[2] != c));
+    if (g_fact_n > 3) __CPROVER_assume(!(g_fact_idx[3] == i && g_fact_ch[3] != c));
+    if (g_fact_n < 4) { g_fact_idx[g_fact_n] = i; g_fact_ch[g_fact_n] = c; g_fact_n++; }
+    return c;
 }
 static inline struct vs_nstr vs_nstr_substr(const struct vs_nstr *s, size_t pos, size_t count)
 {
